@@ -309,12 +309,18 @@ pub fn gen_case(bytes: &[u8], p: &Profile) -> Case {
     let mut fair_polls = 0u16;
     if p.fair {
         // designate one input that has an item on every poll
+        // (one, sometimes two or three inputs: each of them must be served)
         let n = root.children.len().max(1);
-        let d = c.choice(n);
-        if let Some(ch) = root.children.get_mut(d) {
-            *ch = ChildSpec::Leaf(LeafSpec { script: vec![], always: true });
+        let how_many = c.weighted(&[(1usize, 60), (2, 25), (3, 15)]).min(n);
+        for _ in 0..how_many {
+            let d = c.choice(n);
+            if let Some(ch) = root.children.get_mut(d) {
+                *ch = ChildSpec::Leaf(LeafSpec { script: vec![], always: true });
+            }
         }
-        fair_polls = (n * (3 + c.choice(6))) as u16;
+        // mostly a few rounds; sometimes a long run (rotation state that only
+        // goes wrong after hundreds of polls)
+        fair_polls = if c.coin(20) { (260 + c.choice(500)) as u16 } else { (n * (3 + c.choice(6))) as u16 };
     }
     if c.coin(p.p_panic) {
         let mut leaves = Vec::new();
